@@ -137,6 +137,15 @@ func routable(r *rand.Rand) netip.Addr {
 	}
 }
 
+// idnPool: Unicode forms as an operator would configure them and the ASCII form a resolver is asked for
+// (RFC 3492 examples; the table keeps the reference independent of the code's own normalisation).
+var idnPool = []struct{ unicode, ascii string }{
+	{"Bücher.myco", "xn--bcher-kva.myco"},
+	{"münchen.myco.", "xn--mnchen-3ya.myco"},
+	{"日本.myco", "xn--wgv71a.myco"},
+	{"straße.myco", "xn--strae-oqa.myco"},
+}
+
 var labelPool = []string{"router", "open", "wpad", "myco", "alice", "bob", "printer", "nas", "a.b", "x-y_z", "xn--bcher-kva", "www.alice", "0", "very-long-label-aaaaaaaaaaaaaaaaaaaaaaaaaaaaaaaaaaaaaaaaaaaaaaa"}
 
 type world struct {
@@ -174,10 +183,8 @@ func buildWorld(r *rand.Rand) (*world, error) {
 		case 1:
 			variant = name + "."
 		}
-		cleaned, ok := config.CleanDomain(variant)
-		if !ok {
-			continue
-		}
+		// the reference normalises by itself: ASCII lower case, no trailing dot (labels of the pool are valid)
+		cleaned := strings.TrimSuffix(asciiLower(variant), ".")
 		if _, dup := rc.resolve[cleaned]; dup {
 			continue
 		}
@@ -185,15 +192,27 @@ func buildWorld(r *rand.Rand) (*world, error) {
 		rc.resolve[cleaned] = ip
 		st.ResolveConfig[variant] = ip.String()
 	}
+	// internationalised names are configured in Unicode and asked for in their ASCII (punycode) form
+	for _, idn := range idnPool {
+		if r.IntN(3) != 0 {
+			continue
+		}
+		if _, dup := rc.resolve[idn.ascii]; dup {
+			continue
+		}
+		ip := routable(r)
+		rc.resolve[idn.ascii] = ip
+		st.ResolveConfig[idn.unicode] = ip.String()
+	}
 	cfg, err := st.Parse()
 	if err != nil {
 		return nil, err
 	}
 	w := &world{rc: rc, cfg: cfg, store: storage.NewMemStorage()}
 	for i := 0; i < nm; i++ {
-		cleaned, ok := config.CleanDomain(pick() + ".myco")
-		if !ok {
-			continue
+		cleaned := pick() + ".myco"
+		if r.IntN(6) == 0 {
+			cleaned = idnPool[r.IntN(len(idnPool))].ascii
 		}
 		ip := routable(r)
 		rc.mappings[cleaned] = ip
